@@ -29,6 +29,8 @@ func main() {
 	pkg := flag.String("pkg", "./cmd/vh", "harness package to build")
 	repo := flag.String("repo", "/repo", "heimdall working tree")
 	verif := flag.String("verif", "/verif", "verif root")
+	var mutations multiFlag
+	flag.Var(&mutations, "mutate", "<file under repo>=<replacement file>: build with the replacement instead (mutation testing; repeatable)")
 	onlyOverlay := flag.Bool("overlay-only", false, "only write the overlay file and print its path")
 	flag.Parse()
 
@@ -98,6 +100,41 @@ func main() {
 		}
 	}
 
+	if len(mutations) != 0 {
+		// a mutated build never shares the overlay file of the regular build
+		work = work + "-mut"
+		_ = os.MkdirAll(work, 0o755)
+
+		for _, m := range mutations {
+			orig, repl, ok := strings.Cut(m, "=")
+			if !ok {
+				fatalf("-mutate wants <file>=<replacement>")
+			}
+
+			if _, err := os.Stat(repl); err != nil {
+				fatalf("-mutate: %v", err)
+			}
+
+			if _, isInstr := replace[orig]; isInstr && *variant == "sched" {
+				// instrument the mutated source instead of the original
+				src, _ := os.ReadFile(repl)
+
+				res, err := instrument(orig, src)
+				if err != nil {
+					fatalf("instrumenter refused mutated %s: %v", orig, err)
+				}
+
+				outPath := filepath.Join(work, strings.ReplaceAll(strings.TrimPrefix(orig, "/"), "/", "__")+".txt")
+				writeIfChanged(outPath, res)
+				replace[orig] = outPath
+
+				continue
+			}
+
+			replace[orig] = repl
+		}
+	}
+
 	ov, _ := json.MarshalIndent(map[string]any{"Replace": replace}, "", " ")
 	ovPath := filepath.Join(work, "overlay.json")
 	writeIfChanged(ovPath, ov)
@@ -136,6 +173,11 @@ func main() {
 		fatalf("go build failed (variant %s): %v", *variant, err)
 	}
 }
+
+type multiFlag []string
+
+func (m *multiFlag) String() string     { return strings.Join(*m, ",") }
+func (m *multiFlag) Set(v string) error { *m = append(*m, v); return nil }
 
 func cgo(variant string) string {
 	if variant == "race" {
